@@ -815,6 +815,82 @@ def _path_outcome(F, fn, p, extra, hide_calls=(), renames=None):
     return text, conjs, ct.vars
 
 
+class XPath:
+    """a path of the engine after the Result/Option case splits: `ret` is in constructor normal form, `tagfacts` include the splits"""
+
+    def __init__(self, p, ret, extra):
+        self.status = p.status
+        self.ret = ret
+        self.store = p.store
+        self.events = p.events
+        self.pc = p.pc
+        self.tagfacts = dict(p.tagfacts)
+        for atom, v in extra.values():
+            if isinstance(atom, tuple) and atom and atom[0] == "cond":
+                self.pc = self.pc + [(atom[1], bool(v), "branch")]
+            else:
+                self.tagfacts[("tag", atom)] = v
+                for e in p.events:
+                    if e["k"] == "call" and e.get("result") is not None and norm(e["result"]) == atom:
+                        self.tagfacts[("tag", e["result"])] = v
+        self.orig = p
+
+
+def expand_paths(F, fn, paths):
+    """split every path on the undecided tags of lazily combined Results/Options in its returned value, so that rules can look at
+    `Ok(..)` / `Err(..)` / `Some(..)` / `None` whatever combinator, `?` or match produced them"""
+    _FACTS[0] = F
+    out = []
+    top = fn.locals[0]["ty"]
+    for p in paths:
+        if p.ret is None or p.status != "return":
+            out.append(p)
+            continue
+        pending = [{}]
+        guard = 0
+        while pending:
+            extra = pending.pop()
+            guard += 1
+            if guard > 64:
+                raise RuntimeError("case-split explosion in %s" % fn.def_)
+            ct = CT(F, p, fn, extra)
+            try:
+                r = ct.resolve(p.ret, top_ty=top)
+            except NeedSplit as ns:
+                for v in (0, 1):
+                    e2 = dict(extra)
+                    e2[repr(ns.atom)] = (ns.atom, v)
+                    pending.append(e2)
+                continue
+            # a split that contradicts a fact the path already has is not a path
+            bad = False
+            for atom, v in extra.values():
+                if not (isinstance(atom, tuple) and atom and atom[0] == "cond"):
+                    f0 = CT(F, p, fn, {}).tagfact(atom)
+                    if isinstance(f0, int) and f0 != v:
+                        bad = True
+                    if isinstance(f0, tuple) and v in f0[1]:
+                        bad = True
+            if not bad:
+                out.append(XPath(p, r, extra))
+    return out
+
+
+def err_source(ret):
+    """for a returned `Err(e)`: the opaque Result whose error is passed on unchanged (through `?`/From of the same type), else None"""
+    if not (isinstance(ret, tuple) and ret and ret[0] == "agg" and ret[3] == "Err"):
+        return None
+    e = ret[5][0]
+    while isinstance(e, tuple) and e and e[0] == "from":
+        e = e[1]
+    if isinstance(e, tuple) and e and e[0] == "errval":
+        x = e[1]
+        while isinstance(x, tuple) and x and x[0] in ("map_ok", "try"):
+            x = x[1]
+        return x
+    return None
+
+
 def summarize(F, fn, max_visits=None, hide_calls=(), _nested=False, inline=inline_local, renames=None):
     _FACTS[0] = F
     if max_visits is None:
